@@ -1,60 +1,19 @@
 /-
   NV.Driver.Main — line protocol: one operation per input line, one canonical output line.
   The Go harness runs the real code on the same lines; bin/check diffs the two streams.
-  Unknown or malformed operations answer `bad-op` (never a default value).
+  Each area contributes a `step… : List String → Option String` (none = not my operation);
+  unknown or malformed operations answer `bad-op` (never a default value).
 -/
-import NV.Model.Reply
+import NV.Driver.Core
 namespace NV
 
-def boolStr (b : Bool) : String := if b then "1" else "0"
-
-def optHex : Option Bytes → String
-  | none => "none"
-  | some b => toHexOrDash b
-
-def queryStr (st : Stage) (q : Query) : String :=
-  s!"{st.str} id={q.id} cls={q.cls} type={q.type} rd={boolStr q.rd} size={q.msgSize} name={toHexOrDash q.name} peer={optHex q.peerIP} mac={optHex q.mac} payload={toHexOrDash q.payload}"
-
-/-- deterministic upstream answer shared with the Go harness: `len` bytes, the query id first -/
-def synthResp (id len salt : Nat) : Bytes :=
-  (List.range len).map fun i =>
-    if i = 0 then b8 (id / 256) else if i = 1 then b8 id
-    else if i = 2 then b8 (128 + salt % 2 * 4)   -- QR=1, TC clear
-    else b8 (i * 7 + salt)
-
-def parseOutcome (id : Nat) (toks : List String) : Option Outcome :=
-  match toks with
-  | ["E"] => some .error
-  | ["H", h] => (ofHex h).map .bytes
-  | ["S", len, salt] => do
-      let l ← len.toNat?
-      let s ← salt.toNat?
-      pure (.bytes (synthResp id l s))
-  | _ => none
+def steppers : List (List String → Option String) := [stepCore]
 
 def step (line : String) : String :=
-  match line.splitOn " " with
-  | ["parse", h] =>
-    match ofHex h with
-    | none => "bad-op"
-    | some p =>
-      match parse p with
-      | .outOfFuel => "out-of-fuel"
-      | .done st q => queryStr st q
-  | "udp" :: h :: rest | "tcp" :: h :: rest =>
-    match ofHex h with
-    | none => "bad-op"
-    | some p =>
-      -- proxy/udp.go, proxy/tcp.go: `if qsize <= 14` drops the datagram / closes the connection
-      if p.length ≤ 14 then (if line.startsWith "udp" then "drop" else "close") else
-      match parse p with
-      | .outOfFuel => "out-of-fuel"
-      | .done _ q =>
-        match parseOutcome q.id rest with
-        | none => "bad-op"
-        | some o =>
-          if line.startsWith "udp" then toHexOrDash (udpReply q o) else toHexOrDash (tcpReply q o)
-  | _ => "bad-op"
+  let toks := line.splitOn " "
+  match steppers.findSome? (fun f => f toks) with
+  | some out => out
+  | none => "bad-op"
 
 partial def loop (hin : IO.FS.Stream) (hout : IO.FS.Stream) : IO Unit := do
   let line ← hin.getLine
